@@ -2,6 +2,7 @@ import GlareModel.Core.Util
 import GlareModel.Core.SortKey
 import GlareModel.Core.Arith
 import GlareModel.Core.Cast
+import GlareModel.Core.SemParse
 
 /-! `gmodel`: line-protocol driver. Reads `case <n> <component> ...` lines on stdin and
 prints `out <n> ...` lines computed by the code-shaped model. -/
@@ -172,6 +173,10 @@ def runCast (args : List String) : String :=
   | _ => "bad-case"
 
 def step (line : String) : Option String :=
+  -- `case N sem <payload>`: the payload keeps its spaces
+  match (line.trimAscii.toString.splitOn " ") with
+  | "case" :: n :: "sem" :: rest => some s!"out {n} {Sem.runSem (" ".intercalate rest)}"
+  | _ =>
   match splitWords line with
   | "case" :: n :: "sortkey" :: cells =>
     let (o, sp) := runSortKey cells
